@@ -259,7 +259,7 @@ fn binary_over(a: &Node, b: &Node, max_len: usize, out: &mut Vec<Node>) {
 }
 
 /// Deterministic enumeration of trees of depth <= 2. `all_kinds`: every leaf kind (thorough) or a rotating choice (quick).
-pub fn enumerate(max_len: usize, all_kinds: bool, float_planners: bool, rng: &mut Rng, depth2_budget: usize) -> Vec<Node> {
+pub fn enumerate(max_len: usize, all_kinds: bool, float_planners: bool, rng: &mut Rng, depth2_budget: usize, big_leaves: bool) -> Vec<Node> {
     let mut rot = 0usize;
     let mut leaves_for = |n: usize| -> Vec<Node> {
         let kinds = leaf_kinds(n, float_planners);
@@ -291,7 +291,7 @@ pub fn enumerate(max_len: usize, all_kinds: bool, float_planners: bool, rng: &mu
     }
     // planner-produced transforms of *any* length as inner transforms (the README idiom MixedRadix::new(planner.plan(30), planner.plan(40))):
     // every unary constructor over planned(m), and binary constructors pairing planned(m) with a small leaf
-    {
+    if big_leaves {
         let mut ms: Vec<usize> = (33..=if all_kinds { 1100 } else { 600 }).filter(|m| is_prime(m + 1)).collect();
         ms.extend_from_slice(&[36, 48, 60, 64, 100, 128, 166, 192, 243, 256, 384, 512, 1024]);
         if all_kinds {
@@ -478,7 +478,7 @@ fn check_float<T: Elem>(st: &mut Stats, tree: &Node, seed: u64, thorough: bool, 
         let base = format!("tree={} type={} dir={} n={}", tree.describe(), T::NAME, dname(dir), n);
         crate::guard::set_case(&format!("C12 {}", base));
         let mut rng = Rng::new(mix(&[seed, n as u64, dir as u64, 0xF107]));
-        if n >= 1 {
+        if n >= 1 && !light {
             // C01 in floats: a dense vector and a few impulses against the double-double reference at 4B
             let reff = RefFft::new(n);
             let b = bound_b::<T>(n);
@@ -524,16 +524,21 @@ pub fn run(args: &Args) {
     let max_len = args.get_usize("max-len").unwrap_or(if t { 4096 } else { 1024 });
     let mut rng = Rng::new(mix(&[args.seed, 0xC12]));
     let budget = args.get_usize("depth2-budget").unwrap_or(if light { 150 } else if t { 60000 } else { 6000 });
-    let mut trees = enumerate(if light { 96 } else { max_len }, t && !light, true, &mut rng, budget);
-    if light {
-        // small trees only (Miri / ASan): subsample
+    let mut trees = if light {
+        // (Miri / sanitizer sample) the full enumeration is itself too slow to interpret: draw small trees directly
         let keep = args.get_usize("trees").unwrap_or(200);
-        let mut kept = vec![];
-        for _ in 0..keep {
-            kept.push(trees[rng.below(trees.len() as u64) as usize].clone());
+        let mut v = vec![];
+        while v.len() < keep {
+            let depth = 1 + (v.len() % 2);
+            let t = random_tree(&mut rng, depth, 96, true);
+            if t.depth() >= 1 {
+                v.push(t);
+            }
         }
-        trees = kept;
-    }
+        v
+    } else {
+        enumerate(max_len, t, true, &mut rng, budget, true)
+    };
     let n_enumerated = trees.len();
     let n_random = args.get_usize("random").unwrap_or(if light { 20 } else if t { 20000 } else { 500 });
     for _ in 0..n_random {
